@@ -361,6 +361,14 @@ if "C20" in CLAIMED:
         "operators proved equal to the macro-shaped code on int16 (add, sub, abs, mult, mult_r, L_mult, L_add, norm, div; the macro GSM_MULT_R differs from mult_r only at (MIN, MIN), never evaluated "
         "there by the decoder; SfProps/C20Gsm.lean).")
 
+CLAIMED["C12"]["text"] += (" Round 6: THE PREDICATE is Lean: Sf.AbsMeta.judge (lean/SfModel/AbsMeta.lean) evaluated by `sfmodel abs-meta` on the library's transcripts decides; vlib/meta.py `judge` is the cross-check. Every script is also judged against its TWIN run "
+                            "(without the refused / late / unsupported calls: audio and every untouched item equal) and, for a sample, a PERMUTED run (order independence); getters of kinds never set must answer absent. accepted_iff: the predicate is equivalent to the statement "
+                            "in mathematical form (meaning + completeness); normBext_model / normString_model tie its normalisations to the models'. meta_roundtrip is one theorem per container over handle states also for AIFF and CAF (Sf.MetaXS.XState) and covers strings set after the audio (meta_roundtrip_riff_any).")
+CLAIMED["C13"]["text"] += (" Round 6: THE PREDICATE is Lean: Sf.AbsMeta.Chunks.judge evaluated by `sfmodel abs-meta chunks` decides; c13.py `predicate` is the cross-check. New clauses: single-step iterator calls against the complete iteration (next after last is NULL, "
+                            "min (datalen, size) bytes copied), the container's audio chunk visited exactly once by a full iteration, twin run without chunks (audio and strings equal). Chunks.accepted_iff (meaning + completeness), model_entries_accepted / model_getData_accepted / "
+                            "model_refusals_allowed (the read table of chunks_roundtrip_within_cap, getData and accepts pass the clauses).")
+
+
 def main():
     checks = []
     for p in PROPS:
